@@ -655,20 +655,35 @@ func runC17(c *Ctx) {
 		})
 		c.check(found, "R2", "FileInfoUidGid supported", p.Pos(fs.Pos()), "override present", "the FileInfoUidGid override was removed")
 	}
-	if fo := p.Func("fileStatFromInfoOs"); fo != nil {
+	// the owner out of the operating system's stat structure: in the per-OS helper, or in fileStatFromInfo itself when
+	// the helper only hands the two numbers back; not on the systems whose helper is a stub
+	if goos := goosOf(p.Cfg); goos == "windows" || goos == "plan9" {
+		c.note("Stat_t owner: not looked for under %s (the per-OS helper is a stub there)", goos)
+	} else if fs := p.Func("fileStatFromInfo"); fs == nil {
+		c.missing("R2", "fileStatFromInfo")
+	} else {
 		pairs := map[string]string{}
-		eachInstr(fo, func(in ssa.Instruction) {
-			if st, ok := in.(*ssa.Store); ok {
-				if fa, ok := st.Addr.(*ssa.FieldAddr); ok {
-					_, n, _, _ := fieldOf(fa)
-					for _, l := range leavesOf(st.Val) {
-						if l.Kind == leafFieldLoad {
-							pairs[n] = l.Field
+		var fo *ssa.Function = fs
+		for f := range p.cone(fs) {
+			if f != fs && fnName(f) != "fileStatFromInfoOs" {
+				continue
+			}
+			if fnName(f) == "fileStatFromInfoOs" {
+				fo = f
+			}
+			eachInstr(f, func(in ssa.Instruction) {
+				if st, ok := in.(*ssa.Store); ok {
+					if fa, ok := st.Addr.(*ssa.FieldAddr); ok {
+						_, n, _, _ := fieldOf(fa)
+						for _, l := range leavesOf(st.Val) {
+							if l.Kind == leafFieldLoad && typeName(l.Base.Type()) == "Stat_t" {
+								pairs[n] = l.Field
+							}
 						}
 					}
 				}
-			}
-		})
+			})
+		}
 		c.check(pairs["UID"] == "Uid" && pairs["GID"] == "Gid", "R2", "Stat_t owner", p.Pos(fo.Pos()), "UID ← Stat_t.Uid, GID ← Stat_t.Gid", fmt.Sprintf("owner fields are filled as %v", pairs))
 	}
 	// accessors
@@ -916,6 +931,8 @@ func runC17(c *Ctx) {
 				c.check(got == bit, "R3", "FileAttrFlags."+f, pos(a), fmt.Sprintf("flags&%#x", bit), fmt.Sprintf("FileAttrFlags.%s is decoded from bit %#x, expected %#x", f, got, bit))
 			}
 		}
+	} else {
+		c.missing("R3", "newFileAttrFlags")
 	}
 
 	// ---------- R4 client setters ----------
@@ -1160,6 +1177,8 @@ func checkOwnerSourcesAgree(c *Ctx, rule string) {
 		}
 		c.check(first, rule, "FileInfoUidGid precedes Sys() in the long name", p.Pos(rl.Pos()), "as in fileStatFromInfo, where it overrides",
 			"runLs looks at Sys() before FileInfoUidGid while fileStatFromInfo lets FileInfoUidGid override: an entry that has both shows one owner in the long name and another in its attributes")
+	} else {
+		c.missing(rule, "runLs")
 	}
 }
 
